@@ -468,7 +468,16 @@ class Engine:
             self.assign(tgt, v, st, node)
             if isinstance(tgt, ast.Name) and isinstance(node.value, (ast.Name, ast.Attribute, ast.Subscript)) and \
                     _mutable_kind(v):
-                st.borrowed.add(tgt.id)  # a second name for an existing object: value semantics would lose its mutations
+                src = node.value
+                if isinstance(src, ast.Subscript) and isinstance(src.value, ast.Name) and src.value.id in st.env and \
+                        isinstance(st.env[src.value.id].ty, TDict) and src.value.id != tgt.id:
+                    # x = d[k]: x IS the value stored under k (a mutation of x is a mutation of d[k]) - until d is
+                    # written by subscript again (see assign)
+                    dty = st.env[src.value.id].ty
+                    key = self.coerce(self.eval(src.slice, st), dty.key, st, node)
+                    st.alias[tgt.id] = (src.value.id, key.t)
+                else:
+                    st.borrowed.add(tgt.id)  # a second name for an existing object: value semantics would lose its mutations
         return [(st, None)]
 
     def s_AnnAssign(self, node, st):
@@ -1027,6 +1036,10 @@ class Engine:
                 return
             if isinstance(base.ty, TDict):
                 ty = base.ty
+                if isinstance(tgt.value, ast.Name):  # names bound to values of this dict no longer track them
+                    for nm_ in [nm_ for nm_, (q_, _) in st.alias.items() if q_ == tgt.value.id]:
+                        del st.alias[nm_]
+                        st.borrowed.add(nm_)
                 k = self.coerce(self.eval(tgt.slice, st), ty.key, st, node)
                 v = self.coerce(v, ty.val, st, node)
                 had = z3.Select(ty.dom(base.t), k.t)
@@ -1317,6 +1330,8 @@ class Engine:
     def coerce(self, v: Val, ty: Ty, st: State, node) -> Val:
         if v.ty is ty or v.ty.name == ty.name:
             return v
+        if ty is TObj and isinstance(v.ty, TNoneT):
+            return Val(TObj, TObj.lit(None))  # None is an object like any other (a distinguished constant of the sort)
         if ty is TObj and (v.ty is TStr or v.ty is TInt or v.ty is TBool):
             # a string / number used where any object is expected: boxed by an (uninterpreted) injection of its sort
             box = z3.Function(f"box:{v.ty.name}", v.ty.sort(), TObj.sort())
@@ -1559,6 +1574,8 @@ class Engine:
                     r = a.ty.is_none(a.t)
                 elif isinstance(a.ty, TUnion) and "none" in [t for t, _ in a.ty.alts]:
                     r = a.ty.is_("none", a.t)
+                elif a.ty is TObj:  # an arbitrary object may be None
+                    r = a.t == TObj.lit(None)
                 else:
                     r = z3.BoolVal(isinstance(a.ty, TNoneT))
                 return r if isinstance(op, ast.Is) else z3.Not(r)
